@@ -39,6 +39,20 @@ func genC20Codec(t *rapid.T) C20CodecCase {
 	for i := 0; i < n; i++ {
 		c.Exs = append(c.Exs, genTree(t, 3, fmt.Sprintf("e%d", i)))
 	}
+	// PERCENTILE wrapping an existing PERCENTILE (its own wire type), with
+	// precisions on both sides of the 1..5 range in which the histogram's
+	// precision and the scaling precision coincide
+	if rapid.IntRange(0, 2).Draw(t, "pctopt") == 0 {
+		in := &h.Ex{Op: "PCT", F: rapid.SampledFrom(h.ValNames).Draw(t, "po.f"), Pct: float64(rapid.SampledFrom([]int{1, 50, 99}).Draw(t, "po.pct")), Lo: 0, Hi: float64(rapid.SampledFrom([]int{10, 100}).Draw(t, "po.hi")), Prec: rapid.SampledFrom([]int{0, 1, 2, 3, 6}).Draw(t, "po.prec")}
+		if in.Prec == 6 {
+			in.Hi = 1 // keeps the histogram small
+		}
+		var e *h.Ex = &h.Ex{Op: "PCTOPT", Pct: float64(rapid.SampledFrom([]int{5, 50, 95}).Draw(t, "po.pct2")), Args: []*h.Ex{in}}
+		if rapid.Bool().Draw(t, "po.twice") {
+			e = &h.Ex{Op: "PCTOPT", Pct: float64(rapid.SampledFrom([]int{10, 75}).Draw(t, "po.pct3")), Args: []*h.Ex{e}}
+		}
+		c.Exs = append(c.Exs, e)
+	}
 	// numeric parameters that do not survive a narrower wire type: fractions
 	// that are not float32-representable, integers above 2^24 and 2^31
 	odd := []float64{0.1, 0.3, 2.7, 1e-7, 16777217, 3000000001.5}
